@@ -110,6 +110,7 @@ pub fn inject_wardens(wl: &mut Workload, exp: Exp, dir: Dir, sc: &Value) {
             let len = e[1].as_u64().unwrap_or(0) as usize;
             wl.msgs.insert(pos, warden(exp, dir, len));
             wl.names.insert(pos, warden_name(dir).to_string());
+            wl.body_lens.insert(pos, len);
         }
     }
 }
@@ -219,16 +220,19 @@ pub struct Workload {
     pub decode_panics: u64,
     /// names of the messages whose canonical frame the library did not accept (reported in the evidence by name)
     pub rejected_names: Vec<String>,
+    /// body length each message is expected to have on the wire (model frame / constructed WARDEN length)
+    pub body_lens: Vec<usize>,
 }
 
 pub fn decode_workload(exp: Exp, dir: Dir, frames: &[Value], names: &[String]) -> Workload {
-    let mut w = Workload { msgs: vec![], names: vec![], rejected: 0, decode_panics: 0, rejected_names: vec![] };
+    let mut w = Workload { msgs: vec![], names: vec![], rejected: 0, decode_panics: 0, rejected_names: vec![], body_lens: vec![] };
     for (i, f) in frames.iter().enumerate() {
         let bytes = json_to_bytes(f);
         match guarded(|| read_plain(exp, dir, &bytes)) {
             Ok((Ok(m), consumed)) if consumed == bytes.len() => {
                 w.msgs.push(m);
                 w.names.push(names.get(i).cloned().unwrap_or_default());
+                w.body_lens.push(bytes.len().saturating_sub(if dir == Dir::Client { 6 } else if exp == Exp::Wrath && bytes.first().map(|b| b & 0x80 != 0).unwrap_or(false) { 5 } else { 4 }));
             }
             Ok(_) => {
                 w.rejected += 1;
@@ -572,7 +576,15 @@ pub fn run_session(o: &mut Outcome, exp: Exp, dir: Dir, wl: &Workload, sc: &Valu
                     } else {
                         String::new()
                     };
-                    o.violate("writer_abort", format!("{}:{}:{}{}{}", panic_sig(&msg, &loc), exp.name(), dir.name(), tag, if c05 { ":encrypted-only" } else { "" }), format!("writing {} panicked: '{}' at {}", wl.names[i], msg, loc));
+                    // an arithmetic overflow while writing a body within a few bytes of the largest the header can express is
+                    // identified by that input class, not by the place in the source where the size happens to be added up
+                    let near_max = wl.body_lens.get(i).map(|l| l + 8 >= max_expressible_body(exp, dir) && *l <= max_expressible_body(exp, dir)).unwrap_or(false);
+                    let sig = if msg.contains("with overflow") && near_max {
+                        format!("writer-abort:size-arithmetic-overflow-near-largest-body:{}:{}{}", exp.name(), dir.name(), if c05 { ":encrypted-only" } else { "" })
+                    } else {
+                        format!("{}:{}:{}{}{}", panic_sig(&msg, &loc), exp.name(), dir.name(), tag, if c05 { ":encrypted-only" } else { "" })
+                    };
+                    o.violate("writer_abort", sig, format!("writing {} ({} body bytes) panicked: '{}' at {}", wl.names[i], wl.body_lens.get(i).copied().unwrap_or(0), msg, loc));
                 }
                 log.str("wpanic");
                 write_failed = true;
